@@ -18,6 +18,7 @@ Hypothesis Sft : Sfield S.
 Hypothesis Seqb : seqb_spec S.
 Hypothesis Ord : ordered S.
 Hypothesis Habs2 : forall v : S, sabs v * sabs v = v * v.
+Hypothesis Hadj : forall v : S, sadj v = v.   (* real value types: math::adjoint = id (SPAI-0 accumulates adjoint(a_ii)) *)
 Let Srt : Sring S := F_R Sft.
 
 Theorem richardson_built_amg_strict kd ce dc ml ts (M : crs) k nc pc :
@@ -50,7 +51,7 @@ Proof.
   assert (Hl : lvl_ok kd (sort_rows M)).
   { destruct ls as [|l tl]; [destruct Hh|]. simpl in Hh. rewrite <- Hh. apply (descs_ok_A kd l tl Hd). }
   destruct Hl as (WA & SA & _). rewrite sort_rows_nrows in SA.
-  destruct (built_contracts2 Sft Seqb Ord Habs2 kd ce dc ml ts M k nc pc Hd Hs Ht) as (HJ & _).
+  destruct (built_contracts2 Sft Seqb Ord Habs2 Hadj kd ce dc ml ts M k nc pc Hd Hs Ht) as (HJ & _).
   assert (BL : forall v, length v = n -> length (B v) = n).
   { intros v Lv. unfold B. rewrite <- En in *. apply (amg_B_len Seqb _ _ _ _ lvls Hwf Hnn v Lv). }
   assert (BZ : B (vzero n) = vzero n).
